@@ -30,6 +30,9 @@ structure Worker where
   lastB : Int := -1          -- C variable `bcol` (only written when a panel is handed out)
   deriving Repr, DecidableEq
 
+/-- what reading a non-existent worker slot yields (never enabled) -/
+def dfltW : Worker := ⟨none, .exited, -1⟩
+
 structure Sys where
   sh : Sh
   ws : Array Worker
@@ -54,9 +57,9 @@ def chainReleased (c : PanelCfg) (sh : Sh) (p bcol : Nat) : Bool :=
   else (waitChain c p (c.n + 1) bcol).all fun k => getN sh.spin k == 0
 
 def enabled (c : PanelCfg) (s : Sys) : Ev → Bool
-  | .loop w => match (s.ws.getD w ⟨none, .exited, -1⟩).phase with | .head => true | _ => false
-  | .sched w => match (s.ws.getD w ⟨none, .exited, -1⟩).phase with | .calling => true | _ => false
-  | .finish w => match (s.ws.getD w ⟨none, .exited, -1⟩).phase with
+  | .loop w => match (s.ws.getD w dfltW).phase with | .head => true | _ => false
+  | .sched w => match (s.ws.getD w dfltW).phase with | .calling => true | _ => false
+  | .finish w => match (s.ws.getD w dfltW).phase with
       | .working p b => chainReleased c s.sh p b
       | _ => false
 
@@ -64,16 +67,16 @@ def step (c : PanelCfg) (s : Sys) (e : Ev) : Sys :=
   if !enabled c s e then s else
   match e with
   | .loop w =>
-    let wk := s.ws.getD w ⟨none, .exited, -1⟩
+    let wk := s.ws.getD w dfltW
     { s with ws := s.ws.setIfInBounds w { wk with phase := if s.sh.tasksRemain > 0 then .calling else .exited } }
   | .sched w =>
-    let wk := s.ws.getD w ⟨none, .exited, -1⟩
+    let wk := s.ws.getD w dfltW
     let (sh', got, b) := schedule c s.sh wk.cur 0
     let ph : Phase := match got with | some p => .working p b | none => .head
     let lb : Int := match got with | some _ => (b : Int) | none => wk.lastB
     { sh := sh', ws := s.ws.setIfInBounds w { cur := got, phase := ph, lastB := lb } }
   | .finish w =>
-    let wk := s.ws.getD w ⟨none, .exited, -1⟩
+    let wk := s.ws.getD w dfltW
     match wk.phase with
     | .working p _ => { sh := finishPanel s.sh p, ws := s.ws.setIfInBounds w { wk with phase := .head } }
     | _ => s
